@@ -294,11 +294,72 @@ def bc_shard(desc):
     return sh
 
 
+def spec_versions():
+    """Every (group, rule, date key) of every `rounding:` block of the raw parameter files."""
+    from _gettsim.config import INTERNAL_PARAMS_GROUPS
+
+    out = []
+    for g in INTERNAL_PARAMS_GROUPS:
+        r = dates.raw_yaml(g).get("rounding") or {}
+        for fn, spec in r.items():
+            for k in spec:
+                if isinstance(k, datetime.date) and k >= datetime.date(1980, 1, 1):
+                    out.append((g, fn, k.isoformat()))
+    return out
+
+
+def versions_shard(desc):
+    """Sub-check B for *every* rounding specification version in the YAML files (all dates since
+    1980, i.e. also the 2001-2003 offsets), on the date it enters into force."""
+    sh = core.Shard()
+    known = core.load_known(PROP)
+    for g, rule, iso in desc["items"]:
+        date = datetime.date.fromisoformat(iso)
+        specs = Y.rounding_specs(g, date)
+        spec = specs.get(rule)
+        if spec is None or spec.get("base") is None:
+            continue
+        rng = np.random.RandomState(dates.sub_seed(desc["seed"], PROP, "ver", g, rule, iso) % 2**31)
+        ks = [0, 1, 2, 7, int(rng.randint(3, 5000)), int(rng.randint(5000, 10**6)), -3]
+        vals = probe_values(spec, ks, rng.rand(len(ks)).tolist())
+        params, functions = env.policy_env(date)
+        n = len(vals)
+        data = pd.DataFrame({"p_id": np.arange(n), "hh_id": np.arange(n), "zz_u": np.asarray(vals, dtype=float)})
+        try:
+            res = env.simulate(data, env=(params, [functions, {rule: make_probe(g)}]), targets=[rule], rounding=True)
+        except Exception as e:  # noqa: BLE001
+            key = f"spec-version-raises:{rule}"
+            if key in known:
+                sh.known_seen[key] += 1
+            elif not any(f.key == key for f in sh.failures):
+                sh.failures.append(core.Failure(key, f"{iso}: rounding {rule} with the spec of {iso} ({spec}) raises {type(e).__name__}: {e!s:.120}",
+                                                {"date": iso, "kind": "V", "group": g, "rule": rule, "values": vals}))
+            continue
+        sh.evaluations += 1
+        for u, v in zip(vals, res[rule].tolist()):
+            msg, cls = relation(u, v, spec)
+            sh.nontrivial.add(f"{iso}|V|{rule}|{cls}|{u!r}")
+            if msg:
+                key = f"rounding:{rule}"
+                if key in known:
+                    sh.known_seen[key] += 1
+                elif not any(f.key == key for f in sh.failures):
+                    sh.failures.append(core.Failure(key, f"{iso}: {rule} (spec {spec} from the YAML) injected value {u!r}: {msg}",
+                                                    {"date": iso, "kind": "V", "group": g, "rule": rule, "values": vals}))
+                break
+        if "to_add_after_rounding" in spec:
+            sh.classes["V-spec-with-offset"] += 1
+        sh.classes["V-spec-versions"] += 1
+    return sh
+
+
 def run(tier, seed, t0):
     ds = [d.isoformat() for d in popcheck.plan_dates(tier, seed, PROP + "bc", 16 if tier == "quick" else None)]
     n = core.NPROC
     extra = [("vf.checks.c10", "bc_shard", [{"dates": ds[i::n], "seed": seed, "n": 4 if tier == "quick" else 40}
                                             for i in range(n) if ds[i::n]])]
+    vers = sorted(spec_versions(), key=lambda t: t[2])
+    extra.append(("vf.checks.c10", "versions_shard", [{"items": vers[i::n], "seed": seed} for i in range(n) if vers[i::n]]))
     return popcheck.run(__name__, tier, seed, t0, extra_descs=extra)
 
 
@@ -310,4 +371,7 @@ def replay(case):
         return check_natural(df, date)
     if kind == "B":
         return check_injected(date, case["rule"], case["values"])[0]
+    if kind == "V":
+        sh = versions_shard({"items": [(case["group"], case["rule"], case["date"])], "seed": 1})
+        return sh.failures
     return check_missing(date, case["rule"])[0]
